@@ -851,6 +851,17 @@ def F47():
                 res[label] = type(e).__name__
     return res.get("non-minimal spelling") is True, "verify_input: %s" % res
 
+def F48():
+    """1-of-1 TapRootMultiSig"""
+    from buidl.ecc import PrivateKey
+    from buidl.taproot import TapRootMultiSig
+    try:
+        t = TapRootMultiSig([PrivateKey(5).point], 1)
+        r = "constructed, single leaf %s…" % t.single_leaf().hash().hex()[:12]
+    except Exception as e:
+        r = "%s: %s" % (type(e).__name__, e)
+    return not r.startswith("constructed"), "TapRootMultiSig([key], 1) -> %s" % r
+
 def K1():
     from buidl.op import op_2rot
     st = [b"1", b"2", b"3", b"4", b"5", b"6"]
